@@ -17,9 +17,22 @@ class WindowMonitor(Monitor):
     network-generated arrival histories to shadow BitFields of other widths, and checks SeqNum
     arithmetic against plain modular arithmetic on every pair of values the history relates."""
     wants_build = True
+    wants_recv = True
+
+    def post_recv(self, conn, hdr, datagram, pre, result):
+        # the set of datagrams this endpoint ACCEPTED (authenticated, not duplicate, not stale) - kept independently
+        # of the BitField calls, so that "the ack fields name exactly the datagrams received" is judged against what
+        # was really received, not against whatever was inserted into the window
+        if result is True or (isinstance(result, str) and result.startswith("raised")):
+            m = self.accepted_models.get(id(conn))
+            if m is None:
+                m = self.accepted_models[id(conn)] = R.WindowModel(32)
+                self._refs.append(conn)
+            m.insert(int(hdr.seq))
 
     def attach(self, world):
         self.w = world
+        self.accepted_models = {}  # id(conn) -> WindowModel(32) of accepted datagrams
         self.models = {}          # id(BitField) -> WindowModel
         self.shadows = {}         # id(BitField) -> [(BitField(w), WindowModel(w))]
         self._refs = []
@@ -133,7 +146,7 @@ class WindowMonitor(Monitor):
         w = self.w
         h = pkt.hdr
         cn = w.conn_name(conn)
-        model = self.models.get(id(conn.bitfield_pkt))
+        model = self.accepted_models.get(id(conn))
         newest, bits = (model.newest, model.bits()) if model is not None else (0, 0)
         if int(h.ack) != newest or h.ack_bits != bits:
             w.violation("emitted_ack_fields_differ_from_received_set",
@@ -168,7 +181,21 @@ class C08(UdpCheck):
 
     def gen(self, rng, tier, i):
         wrap = (i < 1) if tier == "quick" else (i % 500 < 2)
-        return gen_dups(rng, i, tier, wrap=wrap)
+        case = gen_dups(rng, i, tier, wrap=wrap)
+        if not wrap:
+            # datagrams that parse as a header but are not authentic must not show up in the ack fields
+            cfg, plan = case["cfg"], case["plan"]
+            n = len(cfg["clients"])
+            for j in range(rng.choice([0, 4, 12])):
+                c = rng.randrange(n)
+                frm, to = rng.choice([("c%d" % c, "S"), ("S", "c%d" % c)])
+                t = round(1.0 + rng.random() * (cfg["duration"] - 2.0), 3)
+                if rng.random() < 0.5:
+                    plan.append({"op": "garbage", "global": True, "t": t, "frm": frm, "to": to, "kind": "header", "n": j})
+                else:
+                    plan.append({"op": "mutate", "global": True, "t": t, "link": "%s>%s" % (frm, to), "how": "flip",
+                                 "bit": 160 + rng.randrange(64), "back": rng.choice([0, 0, 1])})
+        return case
 
     def monitors(self, case):
         self.mon = WindowMonitor()
